@@ -3,6 +3,7 @@ import EaselModel.Sqio.Tracker
 import EaselModel.Sqio.AfetchMain
 import EaselModel.Sqio.EchoSpec
 import EaselModel.Sqio.FetchSpec
+import EaselModel.Sqio.FetchWhole
 /-! # C07 — fetching by key, number or coordinates returns what a sequential scan returns
 
 Property theorems only (proofs are glue on `Sqio/Geometry.lean`, `Sqio/Tracker.lean`).
@@ -237,6 +238,20 @@ theorem fetchSubseq_end_out_of_range (a : Ascii) (ssi : Ssi) (sq : Sq) (key : By
     (h : start > end_ ∨ (0 < len ∧ end_ > len)) :
     (fetchSubseq a ssi sq key start end_).2.2 = .erange :=
   FetchSpec.fetchSubseq_erange a ssi sq key start end_ roff doff len actualStart hfs he0 h
+
+open EaselModel.Sqio.SpecFasta in
+/-- **(3, whole record) FETCH = SCAN: `sqascii_Position(roff)` + `sqascii_Read` — what `esl_sqio_Fetch`, `PositionByKey` / `ByNumber` + `Read`
+    and `esl-sfetch`'s whole-record path do — returns the record the sequential scan yields, for every block size**: for every record `s`
+    of the scan, every block-mode handle on the file (any `B ≥ 1`, cursor anywhere) and every reused `ESL_SQ` of the right mode, positioning
+    at `s.roff` succeeds, the read succeeds and returns `s`: name, description, residues, `roff` / `hoff` / `doff` / `eoff`, `L` (`toRecord`). -/
+theorem fetch_eq_scan (bytes : Bytes) (abc : Nat) (habc : abc ∈ [0, 1, 2, 3]) (s : Sq) (hs : s ∈ (parseFasta abc bytes).1)
+    (a : Ascii) (hf : a.file = bytes) (hb : a.linebased = false) (hr : a.recording ≠ 1) (hB : 1 ≤ a.B)
+    (hi : a.inmap = inmapFasta abc) (hfmt : a.fmt = 1) (heof : a.eofIsOk = true)
+    (sq : Sq) (hdig : sq.digital = (abc != 0)) (hsabc : sq.abc = abc) (hseq : sq.seq = #[]) (hna : 2 ≤ sq.nalloc) (hda : 2 ≤ sq.dalloc) :
+    (position a s.roff.toNat).2 = .ok ∧
+    (read (position a s.roff.toNat).1 sq).2.2 = .ok ∧
+    toRecord (read (position a s.roff.toNat).1 sq).2.1 = toRecord s :=
+  FetchWhole.fetch_eq_scan bytes abc habc s hs a hf hb hr hB hi hfmt heof sq hdig hsabc hseq hna hda
 
 /-- what the scan says about every record it returns: offsets inside the file, the header re-parses at `roff`, the residues are the
     residues of the data bytes at `doff`, `L` is their number -/
